@@ -299,6 +299,32 @@ def check(ctx):
                                       "not accepted where %s is declared" % tn, "accepted", "FunctionSignature.matches")
                     ctx.count("narrow:%s%s@%d:%s" % (name, h.sig, i, type(bad).__name__), bucket="narrowing")
 
+    # ---- a keyword under an ALTERNATIVE spelling (colour / color, normalise / normalize …): whether or not the tree accepts the other
+    # spelling, a wrongly typed value under the declared one is rejected — also when the other spelling follows in the same call
+    def respell(k):
+        out = []
+        for a, b in (("colour", "color"), ("color", "colour"), ("ise", "ize"), ("ize", "ise"), ("centre", "center"), ("center", "centre"), ("grey", "gray"), ("_", "")):
+            if a in k:
+                out.append(k.replace(a, b))
+        return [o for o in out if o != k]
+    for name in names:
+        for h in F.FUNCTIONS[name]:
+            if not h.sig.kw_args:
+                continue
+            pos_ok = [txt_of(t)[0] for t in h.sig.args]
+            for k, t in list(h.sig.kw_args.items())[:8]:
+                good = txt_of(t)[0]
+                wrong = '"x"' if R.types.get_type_as_string(t) != "String" else "7"
+                for k2 in respell(k):
+                    if k2 in h.sig.kw_args:
+                        continue
+                    for kwtext in ("%s: %s, %s: %s" % (k, wrong, k2, good), "%s: %s, %s: %s" % (k2, good, k, wrong), "%s: %s" % (k2, wrong)):
+                        text = "%s(%s)" % (name, ", ".join(pos_ok + [kwtext]))
+                        k_, v_ = R.value(text)
+                        ctx.count("kwtext-respelled:" + text, bucket="kw-text-respelled:" + ("accepted" if k_ == "ok" else "rejected"))
+                        if k_ == "ok":
+                            ctx.violation("dispatch-kw-text:" + text, text, "rejected (a wrongly typed keyword value, under whichever spelling)", "accepted", "execute(%r)" % text)
+
     # ---- an UNKNOWN keyword on every function that can be called by name, as text: for each signature whose positional call is
     # accepted, the same call with `nosuchkw_: 1` appended is rejected and no body of that name runs (also for functions the
     # evaluator treats specially: whatever route a call takes, its keywords reach the resolution)
